@@ -61,10 +61,10 @@ func c08GenField(r *core.Rand, name string) c08Field {
 		f.NL = false
 		return f
 	case 1, 2: // single line
-		f.Lines = []string{gen.ValueLine(r)}
+		f.Lines = []string{c08FirstLine(r)}
 		return f
 	}
-	f.Lines = []string{gen.ValueLine(r)}
+	f.Lines = []string{c08FirstLine(r)}
 	for k := r.Range(1, 6); k > 0; k-- {
 		switch r.Intn(7) {
 		case 0:
@@ -83,6 +83,16 @@ func c08GenField(r *core.Rand, name string) c08Field {
 		}
 	}
 	return f
+}
+
+// c08FirstLine: the first logical line of a value; now and then it is itself indented (a hand-built
+// value such as " * item"), which the writer cannot put right after the colon, where readers strip it.
+func c08FirstLine(r *core.Rand) string {
+	l := gen.ValueLine(r)
+	if r.Chance(1, 6) {
+		l = r.Pick([]string{" ", "\t", "   ", " \t"}) + l
+	}
+	return l
 }
 
 func scanWritten(c *core.C, what string, out []byte) {
